@@ -58,16 +58,23 @@ Definition leak_of (c : cfg) (st : astate) (nx : N) (o : op) : list N :=
       | Some a => if idx <? N.of_nat (length (a_xs a)) then sink_leak c st nx v a (N.to_nat idx) k else []
       | None => []
       end
-  | ODrain _ v sb eb pat FinForget =>
-      (* a leaked drain: the not yet yielded part of the range and the tail behind it *)
+  | ODrain _ v sb eb pat f =>
+      (* a leaked drain: the not yet yielded part of the range and the tail behind it; items the caller forgot *)
       match get_a v st with
       | Some a =>
           let xs := a_xs a in
           match range_of_bounds usize_max (N.of_nat (length xs)) (to_sb sb) (to_sb eb) with
           | Some (s, e) =>
               match sp_walk xs pat (N.to_nat s) (N.to_nat e) with
-              | Some (_, _, i, j) => firstn (j - i) (skipn i xs) ++ skipn (N.to_nat e) xs
-              | None => []
+              | Some (_, _, i, j) =>
+                  match f with FinForget => firstn (j - i) (skipn i xs) ++ skipn (N.to_nat e) xs | FinDrop => [] end
+              | None =>
+                  match sp_walk_mv c v xs pat (N.to_nat s) (N.to_nat e) (set_a v (Some (with_xs a (firstn (N.to_nat s) xs))) st) with
+                  | Some (WDone _ _ i j _ lost) =>
+                      lost ++ match f with FinForget => firstn (j - i) (skipn i xs) ++ skipn (N.to_nat e) xs | FinDrop => [] end
+                  | Some (WStop _ _ _ _ _ lost) => lost
+                  | None => []
+                  end
               end
           | None => []
           end
@@ -607,7 +614,7 @@ Proof.
     destruct (sp_walk xs pat s e) as [[[[rets ds] i] j]|] eqn:Ew; [|discriminate].
     destruct (sp_walk_perm xs pat s e rets ds i j Hse Hel Ew) as (Hp & Hb1 & Hb2 & Hb3).
     pose proof (sp_drain_perm xs s e Hse Hel) as Hd. unfold sp_drained in Hd.
-    destruct f; injection Hr as <-; cbn [ok_res s_nx s_st s_evs].
+    destruct f; injection Hr as <-; cbn [ok_res s_nx s_st s_evs]; cbv beta iota.
     + pose proof (vis_set_any st v (Some (with_xs a (VecSpec.sp_drain s e xs)))) as H1. cbn [slot_xs with_xs a_xs] in H1.
       rewrite drops_app, drops_yielded, Hdg, drops_map. perm_count.
     + pose proof (vis_set_any st v (Some (with_xs a (firstn s xs)))) as H1. cbn [slot_xs with_xs a_xs] in H1.
@@ -618,6 +625,152 @@ Proof.
       perm_count.
   - injection Hr as <-. cbn [panic_res s_nx s_st s_evs drops flat_map].
     destruct f; perm_count.
+Qed.
+
+Lemma nth_set_nth_other {A} (d : A) : forall v m x l, m <> v -> nth m (set_nth v x d l) d = nth m l d.
+Proof.
+  induction v as [|v IH]; intros m x l Hne.
+  - destruct l as [|y l]; destruct m as [|m]; cbn [set_nth nth]; try contradiction; try reflexivity. destruct m; reflexivity.
+  - destruct l as [|y l]; destruct m as [|m]; cbn [set_nth nth]; try reflexivity.
+    + rewrite IH by lia. destruct m; reflexivity.
+    + apply IH. lia.
+Qed.
+Lemma get_a_set_other' v m oa st : m <> v -> get_a m (set_a v oa st) = get_a m st.
+Proof. intros Hne. rewrite !get_a_nth. unfold set_a. apply nth_set_nth_other. exact Hne. Qed.
+Lemma get_a_set_same' v oa st : get_a v (set_a v oa st) = oa.
+Proof.
+  rewrite get_a_nth. unfold set_a. revert st. induction v as [|v IH]; intros st; destruct st as [|y st]; cbn [set_nth nth]; auto.
+Qed.
+
+(** one item of a moving walk: the value ends up in exactly one place *)
+Lemma sp_item_perm v st t sk :
+  match sp_item c v st t sk with
+  | Some (inl (out, evs0, st1, lost0)) =>
+      Permutation (t :: vis st) (vis st1 ++ drops evs0 ++ lost0) /\ get_a v st1 = get_a v st
+  | Some (inr (p, evs0)) => drops evs0 = [t]
+  | None => True
+  end.
+Proof.
+  assert (Hd : drops (drop_ev c t) = [t]) by (apply drops_drop_ev; exact Hdg).
+  destruct sk as [| |dst|dst j| | | | |]; cbn [sp_item]; try exact I;
+    try (split; [rewrite Hd; cbn [app]; perm_count|reflexivity]).
+  - destruct (Nat.eqb_spec dst v) as [|Hne]; [exact I|].
+    destruct (get_a dst st) as [b|] eqn:Hgb; [|exact I].
+    destruct (put_value c b None t) as [ys'|p] eqn:Epv; [|exact Hd].
+    split; [|apply get_a_set_other'; intros X; apply Hne; symmetry; exact X].
+    destruct (vis_replace st dst b ys' Hgb) as (R & H1 & H2 & _).
+    pose proof (put_value_perm c b None t ys' Epv) as H3. cbn [drops flat_map app]. perm_count.
+  - destruct (Nat.eqb_spec dst v) as [|Hne]; [exact I|].
+    destruct (get_a dst st) as [b|] eqn:Hgb; [|exact I].
+    destruct (put_value c b (Some j) t) as [ys'|p] eqn:Epv; [|exact Hd].
+    split; [|apply get_a_set_other'; intros X; apply Hne; symmetry; exact X].
+    destruct (vis_replace st dst b ys' Hgb) as (R & H1 & H2 & _).
+    pose proof (put_value_perm c b (Some j) t ys' Epv) as H3. cbn [drops flat_map app]. perm_count.
+  - split; [cbn [drops flat_map app]; perm_count|reflexivity].
+Qed.
+
+Definition wres_parts (r : wres) : list event * nat * nat * astate * list N :=
+  match r with WDone _ evs i j st lost | WStop _ evs i j st lost => (evs, i, j, st, lost) end.
+
+Lemma range_step_front (xs : list N) i j : (i < j)%nat -> (j <= length xs)%nat ->
+  firstn (j - i) (skipn i xs) = nth i xs 0 :: firstn (j - S i) (skipn (S i) xs).
+Proof.
+  intros Hij Hj. replace (j - i)%nat with (S (j - S i)) by lia.
+  rewrite (skipn_nth_cons 0 xs i) by lia. reflexivity.
+Qed.
+Lemma range_step_back (xs : list N) i j : (i < j)%nat -> (j <= length xs)%nat ->
+  Permutation (firstn (j - i) (skipn i xs)) (nth (j - 1) xs 0 :: firstn (j - 1 - i) (skipn i xs)).
+Proof.
+  intros Hij Hj. replace (j - i)%nat with ((j - 1 - i) + 1)%nat by lia.
+  rewrite <- (firstn_skipn (j - 1 - i) (firstn (j - 1 - i + 1) (skipn i xs))).
+  rewrite firstn_firstn. replace (Nat.min (j - 1 - i) (j - 1 - i + 1)) with (j - 1 - i)%nat by lia.
+  assert (Hl : skipn (j - 1 - i) (firstn (j - 1 - i + 1) (skipn i xs)) = [nth (j - 1) xs 0]).
+  { rewrite skipn_firstn_comm. replace (j - 1 - i + 1 - (j - 1 - i))%nat with 1%nat by lia.
+    rewrite skipn_skipn_add. replace (i + (j - 1 - i))%nat with (j - 1)%nat by lia.
+    rewrite (skipn_nth_cons 0 xs (j - 1)) by lia. reflexivity. }
+  rewrite Hl. symmetry. apply Permutation_cons_append.
+Qed.
+
+(** a moving walk: every value of the cursor's range is destroyed, leaked, still un-yielded or in another vector *)
+Lemma sp_walk_mv_perm v xs : forall pat i j st r,
+  (i <= j)%nat -> (j <= length xs)%nat ->
+  sp_walk_mv c v xs pat i j st = Some r ->
+  let '(evs, i', j', st', lost) := wres_parts r in
+  Permutation (vis st ++ firstn (j - i) (skipn i xs)) (vis st' ++ drops evs ++ lost ++ firstn (j' - i') (skipn i' xs)) /\
+  (i <= i')%nat /\ (i' <= j')%nat /\ (j' <= j)%nat /\ get_a v st' = get_a v st.
+Proof.
+  induction pat as [|[front sk] pat IH]; intros i j st r Hij Hj Hs; cbn [sp_walk_mv] in Hs.
+  - injection Hs as <-. cbn [wres_parts drops flat_map app]. split; [reflexivity|]. repeat split; lia.
+  - destruct (Nat.eqb_spec i j) as [Heq|Hne].
+    + destruct (sp_walk_mv c v xs pat i j st) as [r0|] eqn:E; [|discriminate].
+      specialize (IH i j st r0 Hij Hj E).
+      destruct r0 as [rets0 evs0 i0 j0 st0 lost0|p0 evs0 i0 j0 st0 lost0]; injection Hs as <-; exact IH.
+    + set (idx := if front then i else (j - 1)%nat) in *.
+      set (i1 := if front then S i else i) in *. set (j1 := if front then j else (j - 1)%nat) in *.
+      set (t := nth idx xs 0) in *.
+      assert (Hrange : Permutation (firstn (j - i) (skipn i xs)) (t :: firstn (j1 - i1) (skipn i1 xs))).
+      { unfold t, idx, i1, j1. destruct front.
+        - rewrite (range_step_front xs i j) by lia. reflexivity.
+        - apply range_step_back; lia. }
+      pose proof (sp_item_perm v st t sk) as Hitem.
+      destruct (sp_item c v st t sk) as [[[[[out evs0] st1] lost0]|[p evs0]]|]; [| |discriminate].
+      * destruct Hitem as [Hp1 Hg1].
+        destruct (sp_walk_mv c v xs pat i1 j1 st1) as [r0|] eqn:E; [|discriminate].
+        assert (H1 : (i1 <= j1)%nat /\ (j1 <= length xs)%nat) by (unfold i1, j1; destruct front; lia).
+        specialize (IH i1 j1 st1 r0 (proj1 H1) (proj2 H1) E).
+        destruct r0 as [rets0 evs1 i0 j0 st0 lost1|p0 evs1 i0 j0 st0 lost1]; injection Hs as <-;
+          cbn [wres_parts] in IH |- *; destruct IH as (Hp2 & Hb1 & Hb2 & Hb3 & Hg2);
+          (split; [rewrite drops_app; perm_count|]);
+          (split; [unfold i1 in Hb1; destruct front; lia|]); (split; [exact Hb2|]);
+          (split; [unfold j1 in Hb3; destruct front; lia|congruence]).
+      * injection Hs as <-. cbn [wres_parts app]. split; [rewrite Hitem; perm_count|].
+        unfold i1, j1. repeat split; destruct front; lia.
+Qed.
+
+Lemma drain_mv_own st nx v sb eb pat f r D L :
+  sp_drain c st nx v sb eb pat f = None ->
+  sp_drain_mv c st nx v sb eb pat f = Some r ->
+  Permutation (created c nx) (vis st ++ D ++ L) ->
+  Permutation (created c (s_nx r))
+    (vis (s_st r) ++ (D ++ drops (s_evs r)) ++ (L ++ leak_of c st nx (ODrain Erased v sb eb pat f))).
+Proof.
+  intros Hnone Hr Hinv. unfold sp_drain in Hnone. unfold sp_drain_mv in Hr. cbn [leak_of].
+  destruct (get_a v st) as [a|] eqn:Hg; [|discriminate]. cbv zeta in Hr, Hnone.
+  set (xs := a_xs a) in *.
+  pose proof (vis_get_any st v) as Hvis. rewrite Hg in Hvis. cbn [slot_xs] in Hvis. fold xs in Hvis.
+  destruct (range_of_bounds usize_max (N.of_nat (length xs)) (to_sb sb) (to_sb eb)) as [[sN eN]|] eqn:Erb; [|discriminate].
+  assert (Hb : sN <= eN /\ eN <= N.of_nat (length xs)).
+  { unfold range_of_bounds in Erb.
+    repeat match type of Erb with
+    | context [match ?x with _ => _ end] => destruct x eqn:?; try discriminate
+    | context [if ?x then _ else _] => destruct x eqn:?; try discriminate
+    end.
+    injection Erb as <- <-. match goal with H : (_ && _)%bool = true |- _ => apply andb_prop in H; destruct H as [H1 H2] end.
+    apply N.leb_le in H1, H2. lia. }
+  set (s := N.to_nat sN) in *. set (e := N.to_nat eN) in *.
+  assert (Hse : (s <= e)%nat) by lia. assert (Hel : (e <= length xs)%nat) by lia.
+  destruct (sp_walk xs pat s e) as [[[[rets0 ds0] i0] j0]|] eqn:Ew; [destruct f; discriminate|]. clear Hnone.
+  set (hidden := set_a v (Some (with_xs a (firstn s xs))) st) in *.
+  destruct (sp_walk_mv c v xs pat s e hidden) as [wr|] eqn:Em; [|discriminate].
+  pose proof (sp_walk_mv_perm v xs pat s e hidden wr Hse Hel Em) as Hw.
+  pose proof (vis_set_any st v (Some (with_xs a (firstn s xs)))) as Hh. cbn [slot_xs with_xs a_xs] in Hh. fold hidden in Hh.
+  pose proof (sp_drain_perm xs s e Hse Hel) as Hd. unfold sp_drained in Hd.
+  assert (Hx : Permutation xs (firstn s xs ++ firstn (e - s) (skipn s xs) ++ skipn e xs)).
+  { rewrite <- (firstn_skipn s xs) at 1. apply Permutation_app_head.
+    rewrite (skipn_split_range xs s e Hse) at 1. reflexivity. }
+  destruct wr as [rets evs i j st' lost|p evs i j st' lost]; cbn [wres_parts] in Hw;
+    destruct Hw as (Hp & Hb1 & Hb2 & Hb3 & Hgv).
+  - pose proof (vis_get_any st' v) as Hv'. rewrite Hgv in Hv'. unfold hidden in Hv'. rewrite get_a_set_same' in Hv'.
+    cbn [slot_xs with_xs a_xs] in Hv'.
+    destruct f; injection Hr as <-; cbn [ok_res s_nx s_st s_evs]; cbv beta iota.
+    + pose proof (vis_set_any st' v (Some (with_xs a (VecSpec.sp_drain s e xs)))) as H1. cbn [slot_xs with_xs a_xs] in H1.
+      rewrite drops_app, Hdg, drops_map. perm_count.
+    + perm_count.
+  - pose proof (vis_get_any st' v) as Hv'. rewrite Hgv in Hv'. unfold hidden in Hv'. rewrite get_a_set_same' in Hv'.
+    cbn [slot_xs with_xs a_xs] in Hv'.
+    injection Hr as <-. cbn [panic_res s_nx s_st s_evs].
+    pose proof (vis_set_any st' v (Some (with_xs a (VecSpec.sp_drain s e xs)))) as H1. cbn [slot_xs with_xs a_xs] in H1.
+    rewrite drops_app, Hdg, drops_map. perm_count.
 Qed.
 
 Lemma drops_nexts k : drops (repeat ENext k) = [].
@@ -994,7 +1147,9 @@ Proof.
     destruct (get_a v st) as [av|]; [|discriminate].
     destruct (idx <? N.of_nat (length (a_xs av))); injection Hr as <-;
       cbn [ok_res panic_res s_nx s_st s_evs leak_of drops flat_map]; perm_count.
-  - exact (drain_own st nx v sb eb pat f r D L Hr Hinv).
+  - destruct (sp_drain c st nx v sb eb pat f) as [r0|] eqn:Ed.
+    + injection Hr as <-. exact (drain_own st nx v sb eb pat f r0 D L Ed Hinv).
+    + exact (drain_mv_own st nx v sb eb pat f r D L Ed Hr Hinv).
   - destruct rk as [| |src]; try exact (splice_own st nx v sb eb pat f _ n wrong_at claimed r D L Hnx Hr Hinv).
     destruct wrong_at as [wa|]; [exact (splice_own st nx v sb eb pat f _ n _ claimed r D L Hnx Hr Hinv)|].
     exact (splice_lazy_own st nx v sb eb pat f src n claimed r D L Hnx Hr Hinv).
@@ -1234,7 +1389,8 @@ Proof.
         { rewrite <- (firstn_skipn s xs) at 1. apply Permutation_app_head.
           rewrite (skipn_split_range xs s e Hse) at 1. reflexivity. }
         destruct a; perm_count.
-      * pose proof (drain_own st nx v sb eb [] FinDrop r D L Hr Hinv) as H. cbn [leak_of] in H. exact H.
+      * pose proof (drain_own st nx v sb eb [] FinDrop r D L Hr Hinv) as H. cbn [leak_of sp_walk] in H.
+        rewrite Hg in H. cbv zeta in H. fold xs in H. rewrite Erb in H. exact H.
     + injection Hr as <-. cbn [panic_res s_nx s_st s_evs drops flat_map]. perm_count.
   - (* OSplice *)
     destruct pat; [|discriminate]. destruct f; [|discriminate].
